@@ -13,7 +13,7 @@ CONSTANTS
   FinOnlyClosed = TRUE
   ReleaseSaved = TRUE
   CleanSkipFixed = TRUE
-  PagesFix = FALSE
+  PagesFix = TRUE
   Script <- MC_NoScript
   ExportMod = 64
   ExportRem = 1
